@@ -9,7 +9,7 @@ use std::path::{Path, PathBuf};
 
 pub fn build(tier: Tier) -> Check<'static> {
     let mut c = Check::new("C18", tier, "6/C18");
-    c.rule = "every program of the C04 profile (with comments as branch items) and the C05 profile, and every sequence of <= 4 (quick) / 5 (thorough) pieces of a 15-piece alphabet in which comments are the only separators, stand next to directives, after macro names, inside actual arguments and at the very end of the text without a line end; each run twice (strip_comments off / on): equal non-comment tokens, equal table, equal error, no comment left outside kept `define lines; non-trivial = both runs succeed, distinct by construction".into();
+    c.rule = "every program of the C04 profile (with comments as branch items) and the C05 profile, and every sequence of <= 4 (quick) / 5 (thorough) pieces of a 16-piece alphabet in which comments are the only separators, stand next to directives, after macro names, inside actual arguments, inside the parentheses behind a macro without formals, and at the very end of the text without a line end; each run twice (strip_comments off / on): equal non-comment tokens, equal table, equal error, no comment left outside kept `define lines; non-trivial = both runs succeed, distinct by construction".into();
     c.assumptions = vec!["tokens are compared after lexing with models/lexref.rs".into()];
     let or = Oracles { strip: true, ..Default::default() };
     {
@@ -31,9 +31,9 @@ pub fn build(tier: Tier) -> Check<'static> {
         c.parts.push(Part::new("directive-bodies", sp.len(), "macros whose text holds directives", move |i, acc| pp::check_prog(acc, &sp.get(i), or, "directive bodies")));
     }
     {
-        let alpha: [&'static str; 15] = ["\" s\"", "a", ";", " ", "\n", "/*c*/", "//c\n", "`define A 1 // d\n", "`define F(x) x /*d*/\n", "`A", "`F/*c*/(1)", "`ifdef A/*c*/\n", "`endif//c\n", "//e", "`F(1 //c\n)"];
+        let alpha: [&'static str; 16] = ["\" s\"", "a", ";", " ", "\n", "/*c*/", "//c\n", "`define A 1 // d\n", "`define F(x) x /*d*/\n", "`A", "`F/*c*/(1)", "`ifdef A/*c*/\n", "`endif//c\n", "//e", "`F(1 //c\n)", "`A(/*c*/ 2)"];
         let sp = soup::strings(&alpha, 0, tier.pick(4, 5), &[""]);
-        c.parts.push(Part::new("comment-soup", sp.len(), "all sequences of the 15 pieces", move |i, acc| {
+        c.parts.push(Part::new("comment-soup", sp.len(), "all sequences of the 16 pieces", move |i, acc| {
             let src = sp.get(i);
             let d = Defs::new();
             acc.transitions += 1;
